@@ -54,11 +54,11 @@ pub fn project(dump: &Value) -> Value {
     json!({"cfg": cfg, "ns": ns, "usr": usr, "seq": seq})
 }
 
-fn norm_model(sm: &Value) -> Value {
+pub fn norm_model(sm: &Value) -> Value {
     json!({"cfg": as_map(&sm["cfg"]), "ns": as_map(&sm["ns"]), "usr": as_map(&sm["usr"]), "seq": as_map(&sm["seq"])})
 }
 
-fn get_dump(node: &mut NodeProc) -> anyhow::Result<Value> {
+pub fn get_dump(node: &mut NodeProc) -> anyhow::Result<Value> {
     let r = node.call(&json!({"op":"dump"}))?;
     if r["res"] != "ok" {
         return Err(anyhow::anyhow!("dump failed: {}", r));
@@ -66,7 +66,7 @@ fn get_dump(node: &mut NodeProc) -> anyhow::Result<Value> {
     Ok(r["dump"].clone())
 }
 
-fn first_diff(a: &Value, b: &Value) -> String {
+pub fn first_diff(a: &Value, b: &Value) -> String {
     for part in ["cfg", "ns", "usr", "seq", "tables", "listing_total"] {
         if a.get(part) != b.get(part) {
             return format!("{}: {} vs {}", part, a.get(part).unwrap_or(&Value::Null), b.get(part).unwrap_or(&Value::Null));
@@ -75,7 +75,7 @@ fn first_diff(a: &Value, b: &Value) -> String {
     "?".into()
 }
 
-fn log_and_apply(node: &mut NodeProc, index: u64, req: &Value) -> anyhow::Result<Option<Value>> {
+pub fn log_and_apply(node: &mut NodeProc, index: u64, req: &Value) -> anyhow::Result<Option<Value>> {
     let a = node.call(&json!({"op":"append_req","index":index,"term":1,"req":req}))?;
     if a["res"] != "ok" {
         return Ok(Some(a));
